@@ -34,7 +34,7 @@ func init() {
 			"(quick tier: a deterministic sixth of it); plus a seeded random stream of documents (1–5 templates from a segment grammar, 0–3 variables, up to 9 methods, sometimes a template and its " +
 			"trailing-slash twin; 0–3 document-level servers with different base paths from six shapes, path-item level servers on one or two path items in 22% of the documents) with " +
 			"requests built from the document's own templates and mutations of them, sent through the forms of every declared server. Observed per case: error kind, route template, method, " +
-			"operation identity, path parameters and the identity of Route.Server; after every routed request a second FindRoute with another declared method is made and the first route re-inspected. Non-trivial = the model reports a branch other than the bare not-found of a server-less document.",
+			"operation identity, path parameters and the identity of Route.Server; after every routed request further FindRoute calls are made on the same router (same URL with another declared method; the same remaining path through every other variable-free server of the list the matched server belongs to) and the first route is re-inspected (Method, Operation, Server, Path, PathItem, Spec). Non-trivial = the model reports a branch other than the bare not-found of a server-less document.",
 		Exhaustive: true,
 		Gen:        genC09,
 		Run:        runC09,
@@ -393,7 +393,7 @@ func cmpC09(c hx.Case, impl any, reply map[string]any) hx.Verdict {
 	// implementation vs spec; a percent-encoded request is judged under both readings of "the request path" (escaped and
 	// decoded) and has to satisfy the property under one of them
 	if msg := jstr(im, "mutatedByLaterCall"); msg != "" {
-		return hx.Verdict{IM: false, IS: false, Detail: "a returned route does not keep the operation of its request: " + msg}
+		return hx.Verdict{IM: false, IS: false, Detail: "a returned route is changed by a later FindRoute on the same router: " + msg}
 	}
 	imDetail := v.Detail
 	c09Judge(c, im, kind, spec, &v)
